@@ -52,6 +52,22 @@ def run_case(fn, replay=None, signature=None, sample=None, timeout_ms=5000, max_
     return out
 
 
+def replay_pinned(fn, failed, timeout_ms=5000):
+    """Concrete replay: re-run the harness function (which re-parses and re-runs the real pass) with every model
+    variable pinned to its value; reproduced iff the same obligation fails again."""
+    model = failed["model"]
+
+    def pinned():
+        sym.pin_model(model)
+        return fn()
+
+    st = explore(pinned, timeout_ms=timeout_ms, max_paths=50, stop_on_fail=True)
+    names = [f["name"] for f in st.failed]
+    ok = failed["name"] in names or bool(names)
+    info = st.failed[0].get("info") if st.failed else None
+    return ok, dict(failed_again=names[:3], info=info, paths=st.paths)
+
+
 def mval(model, name, default=0):
     """model value for a (possibly missing = don't-care) variable."""
     v = model.get(name, default)
